@@ -58,8 +58,55 @@ pub fn build(raw: &Raw, _tier: Tier, sched: bool) -> Scenario {
     for (t, ops) in threads.iter().enumerate() {
         let th = b.thread();
         let last = t + 1 == nthreads;
+        // iterator currently open on this thread (split API). While a thread owns an unread
+        // iterator the reducer may be waiting for it (the iterator channel is documented to be a
+        // capacity-1 blocking hand-over), so until it reads/closes the iterator the thread only
+        // makes calls that do not depend on the reducer's progress - a program that does
+        // otherwise blocks itself and is outside the property.
+        let mut open: Option<u32> = None;
         for r in ops.iter() {
+            if let Some(it) = open {
+                let op = match r.k % 32 {
+                    0..=5 => Op::IterTake { it, k: 1 + (r.a % 3) as u32 },
+                    6..=8 => {
+                        open = None;
+                        Op::IterDrain { it }
+                    }
+                    9..=11 => {
+                        open = None;
+                        Op::IterClose { it }
+                    }
+                    // (real threads: finding `shutdown-sweep-blocked-on-unread-iterator` would hang an
+                    // OS thread, so calls that need the subscriber list are left to driver S)
+                    12..=16 if !sched => Op::GetState { store: s },
+                    12 | 13 => {
+                        let cand: Vec<SubId> = subs.iter().copied().filter(|x| !registered.contains(x)).collect();
+                        if cand.is_empty() {
+                            Op::GetState { store: s }
+                        } else {
+                            let sub = cand[pick(r.a, cand.len())];
+                            registered.insert(sub);
+                            Op::Subscribe { store: s, sub }
+                        }
+                    }
+                    14..=16 => Op::Unsubscribe { store: s, sub: subs[pick(r.a, subs.len())] },
+                    17 | 18 => Op::GetState { store: s },
+                    19 => Op::GetMetrics { store: s },
+                    20 | 21 if policy != Pol::Block => {
+                        let a = b.action(s, 0);
+                        Op::Dispatch { act: a, via: via_of(r) }
+                    }
+                    _ => Op::Stall(stall_of(r.a)),
+                };
+                b.s.threads[th].push(op);
+                continue;
+            }
             let op = match r.k % 32 {
+                29 | 30 if !last => {
+                    let it = b.iter_id();
+                    open = Some(it);
+                    Op::IterOpen { store: s, it, ready: None }
+                }
                 0..=9 => {
                     let o = ActOpts { reducers: &reds, middlewares: &mws, effects: true, followups: true, veto: true, keeps: true, panics: false };
                     let a = scripted_action(&mut b, s, r, &o);
@@ -115,17 +162,22 @@ pub fn build(raw: &Raw, _tier: Tier, sched: bool) -> Scenario {
             };
             b.s.threads[th].push(op);
         }
+        if let Some(it) = open {
+            b.s.threads[th].push(if knob(raw, 11) % 2 == 0 { Op::IterClose { it } } else { Op::IterDrain { it } });
+        }
         if last {
             b.s.threads[th].push(Op::Stop { store: s, via_trait: false });
         }
     }
-    if !sched {
+    if !sched || knob(raw, 12) % 2 == 0 {
+        // (also applied to half of the schedule-controlled cases, so that their schedules are not
+        // spent on rediscovering the known finding)
         // Real threads cannot recover from a hung OS thread, so the one shape known to hang
         // (finding `iterator-created-after-shutdown`: next() of an iterator created after the store
         // was shut down blocks forever) is excluded by construction here and left to the
         // schedule-controlled driver: at most one iterator per thread, no shutdown call other than
         // the final stop, which waits until every iterator exists.
-        let has_iter = b.s.threads.iter().flatten().any(|o| matches!(o, Op::Iter { .. }));
+        let has_iter = b.s.threads.iter().flatten().any(|o| matches!(o, Op::Iter { .. } | Op::IterOpen { .. }));
         if has_iter {
             let ready = b.gate();
             let mut iters = 0;
@@ -136,12 +188,12 @@ pub fn build(raw: &Raw, _tier: Tier, sched: bool) -> Scenario {
                 for (i, o) in ops.iter_mut().enumerate() {
                     let final_stop = t + 1 == n && i + 1 == len;
                     match o {
-                        Op::Iter { ready: r, .. } if !seen => {
+                        Op::Iter { ready: r, .. } | Op::IterOpen { ready: r, .. } if !seen => {
                             seen = true;
                             iters += 1;
                             *r = Some(ready);
                         }
-                        Op::Iter { .. } => *o = Op::GetState { store: s },
+                        Op::Iter { .. } | Op::IterOpen { .. } => *o = Op::GetState { store: s },
                         Op::Close { .. } | Op::Stop { .. } | Op::DropDroppable { .. } if !final_stop => *o = Op::GetMetrics { store: s },
                         _ => {}
                     }
@@ -168,7 +220,7 @@ fn iterator_created_after_shutdown(scn: &Scenario, h: &History) -> bool {
     let mut any = false;
     for (_, _, op) in &pend {
         match op {
-            Op::Iter { it, consume: Consume::UntilNone, .. } | Op::Iter { it, consume: Consume::TakeThenDrop(_), .. } => {
+            Op::Iter { it, .. } | Op::IterTake { it, .. } | Op::IterDrain { it } => {
                 let new = h.recs.iter().position(|r| matches!(&r.ev, Ev::ItNew { it: i } if i == it));
                 let none = h.recs.iter().any(|r| matches!(&r.ev, Ev::ItNone { it: i, .. } if i == it));
                 let dropping = h.recs.iter().any(|r| matches!(&r.ev, Ev::ItDropIn { it: i } if i == it));
@@ -183,6 +235,58 @@ fn iterator_created_after_shutdown(scn: &Scenario, h: &History) -> bool {
     any
 }
 
+/// Finding signature: the shutdown sweep (which runs under the subscriber-list lock) is blocked
+/// handing the end marker to an iterator that still has an unread item, while the thread that owns
+/// that iterator is itself waiting for the subscriber-list lock.
+fn sweep_blocked_on_unread_iterator(scn: &Scenario, h: &History) -> bool {
+    use crate::digest::op_of;
+    let shutdown = h.recs.iter().position(|r| match &r.ev {
+        Ev::Inv { th, ix } => matches!(op_of(scn, *th, *ix), Some(Op::Close { .. }) | Some(Op::Stop { .. }) | Some(Op::DropDroppable { .. })),
+        Ev::CleanupIn => true,
+        _ => false,
+    });
+    if shutdown.is_none() {
+        return false;
+    }
+    let pend = pending_ops(scn, h);
+    // iterators that are open (created, not ended, not dropped) and the thread that owns them
+    let mut owner_blocked_on_list = false;
+    for (th, _, op) in &pend {
+        let needs_list = matches!(op, Op::Subscribe { .. } | Op::Unsubscribe { .. } | Op::IterOpen { .. } | Op::Iter { .. });
+        if !needs_list {
+            continue;
+        }
+        // does this thread own an open iterator?
+        let mut open: std::collections::HashSet<u32> = Default::default();
+        for r in &h.recs {
+            match &r.ev {
+                Ev::Inv { th: t, ix } if t == th => {
+                    if let Some(Op::IterOpen { it, .. }) = op_of(scn, *t, *ix) {
+                        open.insert(*it);
+                    }
+                }
+                Ev::ItDropIn { it } | Ev::ItNone { it, .. } => {
+                    open.remove(it);
+                }
+                _ => {}
+            }
+        }
+        if !open.is_empty() {
+            owner_blocked_on_list = true;
+        }
+    }
+    if !owner_blocked_on_list {
+        return false;
+    }
+    // everything else that is stuck must be explained by the same cycle
+    pend.iter().all(|(_, _, op)| {
+        matches!(
+            op,
+            Op::Stop { .. } | Op::DropDroppable { .. } | Op::Close { .. } | Op::Dispatch { .. } | Op::Subscribe { .. } | Op::Unsubscribe { .. } | Op::IterOpen { .. } | Op::Iter { .. } | Op::IterTake { .. } | Op::IterDrain { .. } | Op::IterClose { .. }
+        )
+    })
+}
+
 pub fn check(scn: &Scenario, h: &History) -> Outcome {
     let mut out = Outcome::default();
     match &h.end {
@@ -190,6 +294,8 @@ pub fn check(scn: &Scenario, h: &History) -> Outcome {
             let msg = format!("deadlock: no thread can make progress ({}). {}", m.chars().take(160).collect::<String>(), blocked_summary(scn, h));
             if iterator_created_after_shutdown(scn, h) {
                 out.known("iterator-created-after-shutdown", msg);
+            } else if sweep_blocked_on_unread_iterator(scn, h) {
+                out.known("shutdown-sweep-blocked-on-unread-iterator", msg);
             } else {
                 out.viol(msg);
             }
@@ -219,8 +325,11 @@ pub fn check(scn: &Scenario, h: &History) -> Outcome {
                 Op::Unsubscribe { sub, .. } if matches!(scn.sub(*sub).kind, SubKind::Channeled { .. }) => {
                     kinds.insert("unsubscribe-channeled");
                 }
-                Op::Iter { .. } => {
+                Op::Iter { .. } | Op::IterOpen { .. } => {
                     kinds.insert("iterator");
+                }
+                Op::IterTake { .. } => {
+                    kinds.insert("iterator-held-across-calls");
                 }
                 Op::Dispatch { .. } if scn.stores[0].policy == Pol::Block && scn.stores[0].capacity <= 2 => {
                     kinds.insert("blocking-dispatch-small-queue");
@@ -243,7 +352,7 @@ pub fn check(scn: &Scenario, h: &History) -> Outcome {
 
 pub static PROFILE: Profile = Profile {
     id: "C13",
-    rule: "proptest programs of 2-4 client threads over the whole public API: dispatch through the three entry points, dispatch_thunk / dispatch_task, add_subscriber / subscribe_with_selector / subscribed / subscribed_with (every policy), unsubscribe (any thread, repeated), get_state, get_metrics, iter() consumed to None or dropped after k items, add_reducer, add_middleware, close, stop (any thread, racing), drop of a DroppableStore; callbacks return and at most read the state. Oracle O-LIVE: under the schedule-controlled driver a state with no runnable thread (incl. stop() needing its timeout, since timed waits never expire there) is a violation; on real threads every case must finish (watchdog). Non-trivial = >= 3 non-empty client threads and >= 3 kinds of blocking-capable operations (stop, unsubscribe of a channeled subscriber, iterator consumption, blocking dispatch on a queue of capacity <= 2) in the program; distinct by scenario hash.",
+    rule: "proptest programs of 2-4 client threads over the whole public API: dispatch through the three entry points, dispatch_thunk / dispatch_task, add_subscriber / subscribe_with_selector / subscribed / subscribed_with (every policy), unsubscribe (any thread, repeated), get_state, get_metrics, iter() consumed to None or dropped after k items (in one go, or held open across other calls of the owning thread that do not depend on the reducer's progress), add_reducer, add_middleware, close, stop (any thread, racing), drop of a DroppableStore; callbacks return and at most read the state. Oracle O-LIVE: under the schedule-controlled driver a state with no runnable thread (incl. stop() needing its timeout, since timed waits never expire there) is a violation; on real threads every case must finish (watchdog). Non-trivial = >= 3 non-empty client threads and >= 3 kinds of blocking-capable operations (stop, unsubscribe of a channeled subscriber, iterator consumption, blocking dispatch on a queue of capacity <= 2) in the program; distinct by scenario hash.",
     raw,
     build,
     check,
